@@ -71,6 +71,12 @@ def havoc_loop_state(I, st_body, frame, spec):
             lt = TY.list_theory(TY.smt_sort(I.path.yielded.extra['elem']))
             I.path.yielded = SV('slist', z3.Const(I.path.fresh_name('out'), lt.sort), extra=I.path.yielded.extra)
         for g in spec.havoc_ghost:
+            if g == 'events':
+                from .specprims import _events
+                cur = _events(I)
+                lt_e = TY.list_theory(TY.Obj)
+                I.path.events = SV('slist', z3.Const(I.path.fresh_name('events'), lt_e.sort), extra=cur.extra)
+                continue
             I._frames_for_ghost = [frame]
             I.registry.havoc_ghost(I, g)
 
